@@ -22,7 +22,7 @@ META = {
                      "the NumPy in /venv is the supported NumPy"],
     "assumptions": ["window size k >= 1 (asserted by the constructor)"],
 }
-MIN_INSTANCES = {"NPAPI": 1, "RING": 2, "NAN": 4}
+MIN_INSTANCES = {"NPAPI": 1, "RING": 2, "NAN": 4, "COPY": 1}
 CLS = "SlidingWindowTracker"
 AGG = {"mean": ("nanmean",), "var": ("nanvar",), "std": ("nanstd",)}
 
@@ -35,6 +35,16 @@ def _same(a, b):
 
 
 def check(run):
+    _check_own(run)
+    # COPY: a copied window tracker owns its ring buffer and its write position
+    from .copylib import copy_protocol
+    prog = run.prog
+    for cls in [prog.find_class(CLS)]:
+        if cls is not None:
+            copy_protocol(run, prog, cls)
+
+
+def _check_own(run):
     prog = run.prog
     cls = prog.find_class(CLS)
     run.need(cls is not None, f"anchor class {CLS} vanished")
